@@ -259,3 +259,93 @@ func flowsToReturn(v ssa.Value) bool {
 	}
 	return rec(v)
 }
+
+// units returns the analysis units of the module: every module function that is not an
+// unexported helper, with its unexported helpers expanded. Rules that scan "all module code" for a
+// local pattern scan the units, so that a site inside a helper is judged in the context of its
+// callers and extracting/inlining/renaming helpers neither moves nor renames a site.
+func units(p *core.Program) []*ssa.Function {
+	if us, ok := unitCache[p]; ok {
+		return us
+	}
+	var us []*ssa.Function
+	covered := map[*ssa.Function]bool{}
+	add := func(fn *ssa.Function) {
+		u := p.Inlined(fn)
+		us = append(us, u)
+		for _, f := range p.Region(u) {
+			covered[f] = true
+		}
+	}
+	for _, fn := range p.ModFunctions(false) {
+		if !core.Transparent(fn) {
+			add(fn)
+		}
+	}
+	// unexported helpers that no unit expands (only used as function values, e.g. the walk
+	// callbacks of the converter, or not called at all) are units of their own
+	called := map[*ssa.Function]bool{} // statically called from module code
+	for _, fn := range p.ModFunctions(false) {
+		for _, in := range instrsOf(fn) {
+			if ci, ok := in.(ssa.CallInstruction); ok {
+				if callee := ci.Common().StaticCallee(); callee != nil && callee != fn {
+					called[callee] = true
+				}
+			}
+		}
+	}
+	for _, fn := range p.ModFunctions(false) {
+		if !covered[fn] && !called[fn] {
+			add(fn)
+		}
+	}
+	for _, fn := range p.ModFunctions(false) {
+		if !covered[fn] {
+			add(fn)
+		}
+	}
+	unitCache[p] = us
+	// closures are named after the unit whose expanded body creates them
+	names := map[*ssa.Function]string{}
+	for _, u := range us {
+		if p.Original(u).Parent() != nil {
+			continue
+		}
+		for k, cl := range closuresOf(u) {
+			if _, ok := names[cl]; !ok {
+				names[cl] = fmt.Sprintf("%s/closure#%d", core.ShortKey(u), k+1)
+			}
+		}
+	}
+	for changed := true; changed; {
+		changed = false
+		for _, u := range us {
+			o := p.Original(u)
+			if o.Parent() == nil {
+				continue
+			}
+			if base, ok := names[o]; ok {
+				for k, cl := range closuresOf(u) {
+					if _, ok := names[cl]; !ok {
+						names[cl] = fmt.Sprintf("%s/closure#%d", base, k+1)
+						changed = true
+					}
+				}
+			}
+		}
+	}
+	unitNames[p] = names
+	return us
+}
+
+var unitCache = map[*core.Program][]*ssa.Function{}
+var unitNames = map[*core.Program]map[*ssa.Function]string{}
+
+// unitName names an analysis unit (closures by their creating unit).
+func unitName(p *core.Program, fn *ssa.Function) string {
+	units(p)
+	if n, ok := unitNames[p][p.Original(fn)]; ok {
+		return n
+	}
+	return core.ShortKey(fn)
+}
